@@ -591,6 +591,12 @@ class ExprMixin:
         return z3.If(i < 0, i + n, i)
 
     def slice(self, obj, lo, hi, lineno):
+        r = self._slice(obj, lo, hi, lineno)
+        if isinstance(r, VList) and getattr(obj, "assoc", False):
+            r.assoc = True  # a slice of an association list is an association list
+        return r
+
+    def _slice(self, obj, lo, hi, lineno):
         if isinstance(obj, VOpt):
             self.safety(z3.Not(obj.isnone), "none slice", lineno)
             obj = obj.val
